@@ -15,6 +15,7 @@ import Bng.Model.FreeList
                contains <hex>      => true | false             (Pool.Contains; a function of the configuration)
     v6addr     new <basehex> <ones>                    => ok
                alloc d3 | release d3
+               scribble d3         => as alloc; afterwards the harness overwrites the bytes it was handed (alias probe)
     v6prefix   new <basehex> <ones> <dl>               => ok | invalid
                alloc d3            => ok <hex>/<dl> | exhausted
                release d3
@@ -81,6 +82,10 @@ def parseVal (kind : Kind) (s : String) : Option Nat :=
 def parseOp (kind : Kind) (toks : List String) : Option Op :=
   match kind, toks with
   | _, ["alloc", k] => (parseTagged kind.tag k).map .alloc
+  -- alias probe of the DHCPv6 pools: an Allocate whose result the caller then overwrites; a caller owns what it is
+  -- handed (the pools return copies), so for the pool this IS an Allocate
+  | .v6addr, ["scribble", k] => (parseTagged 'd' k).map .alloc
+  | .v6prefix, ["scribble", k] => (parseTagged 'd' k).map .alloc
   | .dhcp, ["release", a] => (parseHex a).map .releaseVal
   | .dhcp, ["mark", a] => (parseHex a).map .mark
   | .dhcp, ["stats"] => some .stats
